@@ -4,9 +4,14 @@
 // scratch configuration roots (one per case, removed afterwards).
 //
 //	part "entries": every ordered sequence of <= N (quick 3, thorough 4) directory entries
-//	                over an 18-kind alphabet (= every multiset x every file-name ordering,
-//	                so a good entry sorts before, after and between bad ones) x the three
-//	                valid store types, in an ordinary named store "s";
+//	                over the 18 core kinds and of <= N-1 entries over all 26 kinds (= every
+//	                multiset x every file-name ordering, so a good entry sorts before, after
+//	                and between bad ones; the same kind at two positions = two DISTINCT
+//	                certificates that collide in name+serial / name+key) x the three valid
+//	                store types, in an ordinary named store "s";
+//	part "names":   every file-name style of an entry (hidden, backup, editor, desktop
+//	                bookkeeping, extensions, case, blank, non-ASCII, long) x every kind, alone
+//	                and before / after an ordinary good entry: "every entry" knows no exempt name;
 //	part "paths":   every store type x store name x kind of object found at the store
 //	                path (missing / directory / symlink to a directory / regular file),
 //	                with a fixed good content, x two contents of the alias stores;
@@ -62,10 +67,12 @@ package main
 import (
 	"bytes"
 	"context"
+	"crypto/rand"
 	"crypto/x509"
 	"encoding/pem"
 	"errors"
 	"fmt"
+	"math/big"
 	"os"
 	"path/filepath"
 	"sort"
@@ -117,7 +124,18 @@ var kinds = []kindDef{
 	{"self-issued-leaf-signed-by-other-key", bad, bad, "not-ca-or-self-signed"}, // issuer name == subject name, not a CA, signature of another key
 	{"self-signed-leaf-corrupted-signature", bad, bad, "not-ca-or-self-signed"}, // the self-signed-non-ca of the same position with one signature byte changed
 	{"self-issued-ca-signed-by-other-key", good, bad, "tsa-non-root"},           // CA, issuer name == subject name, signature of another key
-	{"ca-signed-by-own-key-other-issuer-name", good, bad, "tsa-non-root"},       // CA, signature of its own key, issuer name of somebody else
+	{"ca-signed-by-own-key-other-issuer-name", good, bad, "tsa-non-root"},
+	// ---- the kinds above are the CORE alphabet (longest sequences, histories); those below go into sequences one shorter
+	// distinct valid roots that agree in what a de-duplicating loader might key on
+	{"root-same-name-and-serial", good, good, ""},          // every position: same subject = issuer, same serial number, another key
+	{"root-same-name-and-key", good, good, ""},             // every position: same subject and key (same key identifier), another serial number / validity
+	{"pem-two-roots-same-name-and-serial", good, good, ""}, // the collision inside one file
+	// the bad certificate is NOT the last one of its file (first of two, middle of three), PEM and concatenated DER
+	{"pem-leaf-issued-by-ca+ca", bad, bad, "not-ca-or-self-signed"},
+	{"pem-intermediate-ca+ca", good, bad, "tsa-non-root"},
+	{"pem-ca+leaf-issued-by-ca+ca", bad, bad, "not-ca-or-self-signed"},
+	{"pem-ca+intermediate-ca+ca", good, bad, "tsa-non-root"},
+	{"der-intermediate-ca+ca", good, bad, "tsa-non-root"}, // CA, signature of its own key, issuer name of somebody else
 }
 
 const (
@@ -139,7 +157,17 @@ const (
 	kCorruptLeaf
 	kSelfIssuedCA
 	kOwnKeyOtherName
+	kRootSameNameSerial
+	kRootSameNameKey
+	kBundleSameNameSerial
+	kLeafThenCA
+	kInterThenCA
+	kCALeafCA
+	kCAInterCA
+	kDERInterThenCA
 )
+
+const coreKinds = kOwnKeyOtherName + 1
 
 const hole = -1 // no entry at this position (removed, or not yet added)
 
@@ -260,6 +288,21 @@ func one(c *x509.Certificate) material {
 	return material{file: pki.PEM(c), certs: []*x509.Certificate{c}}
 }
 
+// rawRoot makes a self-signed root CA with a chosen subject, serial number and key (pki.Make picks the serial number itself).
+func rawRoot(cn string, serial int64, key int, longer time.Duration) (*x509.Certificate, error) {
+	nb, na := pki.DefaultWindow()
+	t := &x509.Certificate{
+		SerialNumber: big.NewInt(serial), Subject: pki.Name(cn), NotBefore: nb, NotAfter: na.Add(longer),
+		BasicConstraintsValid: true, IsCA: true, MaxPathLen: -1, KeyUsage: x509.KeyUsageCertSign | x509.KeyUsageCRLSign,
+	}
+	k := pki.Key(pki.EC256, key)
+	der, err := x509.CreateCertificate(rand.Reader, t, t, k.Public(), k)
+	if err != nil {
+		return nil, err
+	}
+	return x509.ParseCertificate(der)
+}
+
 func buildMaterial() error {
 	// key 0: roots, key 1: intermediates, key 2: end-entity certificates, key 3: the private-key file.
 	// The keys differ on purpose: an issued certificate must not verify under its own key.
@@ -321,6 +364,47 @@ func buildMaterial() error {
 		// signed by its own key (key 1) but naming another issuer (a namesake-less CA that has the same key)
 		c = ca(fmt.Sprintf("c13 own-key-ca %d", p), 1, ca(fmt.Sprintf("c13 somebody else %d", p), 1, nil))
 		mats[kOwnKeyOtherName][p] = one(c.Cert)
+		// collisions: the same name and serial number under another key; the same name and key under another serial number
+		r1, err := rawRoot("c13 collision root", 4242, 10+p, 0)
+		if err != nil {
+			return err
+		}
+		mats[kRootSameNameSerial][p] = one(r1)
+		r1, err = rawRoot("c13 re-issued root", int64(5000+p), 20, time.Duration(p+1)*24*time.Hour)
+		if err != nil {
+			return err
+		}
+		mats[kRootSameNameKey][p] = one(r1)
+		r1, err = rawRoot(fmt.Sprintf("c13 bundle collision root %d", p), 77, 30+2*p, 0)
+		if err != nil {
+			return err
+		}
+		r2, err := rawRoot(fmt.Sprintf("c13 bundle collision root %d", p), 77, 31+2*p, 0)
+		if err != nil {
+			return err
+		}
+		mats[kBundleSameNameSerial][p] = material{file: pki.PEM(r1, r2), certs: []*x509.Certificate{r1, r2}}
+		// the bad certificate first / in the middle
+		bundle := func(der bool, cs ...*x509.Certificate) material {
+			if !der {
+				return material{file: pki.PEM(cs...), certs: cs}
+			}
+			var b []byte
+			for _, x := range cs {
+				b = append(b, x.Raw...)
+			}
+			return material{file: b, certs: cs}
+		}
+		lf := ee(fmt.Sprintf("c13 bundle leaf-issued-by-ca %d", p), 2, issuer).Cert
+		in := ca(fmt.Sprintf("c13 bundle intermediate-ca %d", p), 1, issuer).Cert
+		mats[kLeafThenCA][p] = bundle(false, lf, ca(fmt.Sprintf("c13 bundle-a root %d", p), 0, nil).Cert)
+		mats[kInterThenCA][p] = bundle(false, in, ca(fmt.Sprintf("c13 bundle-b root %d", p), 0, nil).Cert)
+		lf = ee(fmt.Sprintf("c13 bundle3 leaf-issued-by-ca %d", p), 2, issuer).Cert
+		in = ca(fmt.Sprintf("c13 bundle3 intermediate-ca %d", p), 1, issuer).Cert
+		mats[kCALeafCA][p] = bundle(false, ca(fmt.Sprintf("c13 bundle-c root %d", p), 0, nil).Cert, lf, ca(fmt.Sprintf("c13 bundle-d root %d", p), 0, nil).Cert)
+		mats[kCAInterCA][p] = bundle(false, ca(fmt.Sprintf("c13 bundle-e root %d", p), 0, nil).Cert, in, ca(fmt.Sprintf("c13 bundle-f root %d", p), 0, nil).Cert)
+		in = ca(fmt.Sprintf("c13 der-bundle intermediate-ca %d", p), 1, issuer).Cert
+		mats[kDERInterThenCA][p] = bundle(true, in, ca(fmt.Sprintf("c13 bundle-g root %d", p), 0, nil).Cert)
 	}
 	for _, n := range decoyNames {
 		decoys = append(decoys, ca("c13 decoy "+n, 0, nil).Cert)
@@ -374,6 +458,43 @@ func buildMaterial() error {
 		if c := mats[kOwnKeyOtherName][p].certs[0]; !c.IsCA || !ownKey(c) || selfIssued(c) {
 			return fmt.Errorf("material ca-signed-by-own-key-other-issuer-name/%d mislabelled", p)
 		}
+		for _, k := range []int{kRootSameNameSerial, kRootSameNameKey, kBundleSameNameSerial} {
+			for _, c := range mats[k][p].certs {
+				if !c.IsCA || !selfSigned(c) {
+					return fmt.Errorf("material %s/%d is not a self-signed CA", kinds[k].Name, p)
+				}
+			}
+		}
+		if q := (p + 1) % maxPos; true {
+			a, b := mats[kRootSameNameSerial][p].certs[0], mats[kRootSameNameSerial][q].certs[0]
+			if bytes.Equal(a.Raw, b.Raw) || !bytes.Equal(a.RawIssuer, b.RawIssuer) || a.SerialNumber.Cmp(b.SerialNumber) != 0 || bytes.Equal(a.RawSubjectPublicKeyInfo, b.RawSubjectPublicKeyInfo) {
+				return fmt.Errorf("material root-same-name-and-serial/%d,%d does not collide as labelled", p, q)
+			}
+			a, b = mats[kRootSameNameKey][p].certs[0], mats[kRootSameNameKey][q].certs[0]
+			if bytes.Equal(a.Raw, b.Raw) || !bytes.Equal(a.RawSubject, b.RawSubject) || !bytes.Equal(a.RawSubjectPublicKeyInfo, b.RawSubjectPublicKeyInfo) || a.SerialNumber.Cmp(b.SerialNumber) == 0 {
+				return fmt.Errorf("material root-same-name-and-key/%d,%d does not collide as labelled", p, q)
+			}
+		}
+		if m := mats[kBundleSameNameSerial][p].certs; bytes.Equal(m[0].Raw, m[1].Raw) || !bytes.Equal(m[0].RawIssuer, m[1].RawIssuer) || m[0].SerialNumber.Cmp(m[1].SerialNumber) != 0 {
+			return fmt.Errorf("material pem-two-roots-same-name-and-serial/%d does not collide as labelled", p)
+		}
+		root := func(c *x509.Certificate) bool { return c.IsCA && selfSigned(c) }
+		leaf := func(c *x509.Certificate) bool { return !c.IsCA && !ownKey(c) && !selfIssued(c) }
+		inter := func(c *x509.Certificate) bool { return c.IsCA && !ownKey(c) && !selfIssued(c) }
+		if m := mats[kLeafThenCA][p].certs; !leaf(m[0]) || !root(m[1]) {
+			return fmt.Errorf("material pem-leaf-issued-by-ca+ca/%d mislabelled", p)
+		}
+		if m := mats[kCALeafCA][p].certs; !root(m[0]) || !leaf(m[1]) || !root(m[2]) {
+			return fmt.Errorf("material pem-ca+leaf-issued-by-ca+ca/%d mislabelled", p)
+		}
+		if m := mats[kCAInterCA][p].certs; !root(m[0]) || !inter(m[1]) || !root(m[2]) {
+			return fmt.Errorf("material pem-ca+intermediate-ca+ca/%d mislabelled", p)
+		}
+		for _, k := range []int{kInterThenCA, kDERInterThenCA} {
+			if m := mats[k][p].certs; !inter(m[0]) || !root(m[1]) {
+				return fmt.Errorf("material %s/%d mislabelled", kinds[k].Name, p)
+			}
+		}
 	}
 	return nil
 }
@@ -400,6 +521,8 @@ type loadCase struct {
 	AliasContent string `json:"alias_content,omitempty"`
 	// Then: the store is changed in place and loaded again by the same object.
 	Then []step `json:"then,omitempty"`
+	// Names: the file-name style of the entry at each position ("" or missing = "f<i>-entry"), see entryStyles.
+	Names []string `json:"names,omitempty"`
 	// Mtimes: "" = the modification times of the directory and of overwritten files are put back after the
 	// change (only the content differs); "moved" = they are set two seconds later (the change is visible to stat).
 	Mtimes string `json:"mtimes,omitempty"`
@@ -415,6 +538,9 @@ func (c loadCase) String() string {
 	}
 	if c.Mtimes != "" {
 		s += "|mtimes=" + c.Mtimes
+	}
+	if len(c.Names) > 0 {
+		s += "|names=" + strings.Join(c.Names, ",")
 	}
 	return s
 }
@@ -457,7 +583,7 @@ func kindNames(s []int) []string {
 func singleEdits(a []int) [][]int {
 	var out [][]int
 	for i := range a {
-		for k := range kinds {
+		for k := 0; k < coreKinds; k++ {
 			if k != a[i] {
 				b := append([]int(nil), a...)
 				b[i] = k
@@ -469,7 +595,7 @@ func singleEdits(a []int) [][]int {
 		out = append(out, b)
 	}
 	if len(a) < maxPos {
-		for k := range kinds {
+		for k := 0; k < coreKinds; k++ {
 			out = append(out, append(append([]int(nil), a...), k))
 		}
 	}
@@ -482,15 +608,60 @@ func within(p, base string) bool {
 	return p == base || strings.HasPrefix(p, base+string(filepath.Separator))
 }
 
+// entryStyles: how the file of an entry is called. The statement speaks of EVERY entry of the directory: no name
+// makes an entry exempt (hidden files, backup copies, other extensions, bookkeeping files of a desktop).
+var entryStyles = []struct{ Style, Format string }{
+	{"", "f%d-entry"},
+	{"dot", ".f%d-entry"},
+	{"dot-pem", ".f%d-entry.pem"},
+	{"double-dot", "..f%d-entry"},
+	{"ds-store", ".DS_Store%.0d"},
+	{"nfs", ".nfs0000%d"},
+	{"only-extension", ".pem%.0d"},
+	{"pem", "f%d-entry.pem"},
+	{"crt", "f%d-entry.crt"},
+	{"cer", "f%d-entry.cer"},
+	{"der", "f%d-entry.der"},
+	{"upper-pem", "F%d-ENTRY.PEM"},
+	{"txt", "f%d-entry.txt"},
+	{"key", "f%d-entry.key"},
+	{"bak", "f%d-entry.pem.bak"},
+	{"tilde", "f%d-entry.pem~"},
+	{"hash", "#f%d-entry.pem#"},
+	{"blank", "f%d entry.pem"},
+	{"readme", "README%.0d"},
+	{"thumbs", "Thumbs.db%.0d"},
+	{"trailing-dot", "f%d-entry."},
+	{"underscore", "_f%d-entry"},
+	{"leading-dash", "-f%d-entry"},
+	{"non-ascii", "f%d-entr\u00e9.pem"},
+	{"long", "f%d-" + "0123456789012345678901234567890123456789012345678901234567890123456789012345678901234567890123456789" + ".pem"},
+}
+
 // file names do not depend on the kind, so that an entry can be replaced in place
-func entryFileName(pos int) string { return fmt.Sprintf("f%d-entry", pos) }
+func entryFileName(pos int, names []string) string {
+	style := ""
+	if pos < len(names) {
+		style = names[pos]
+	}
+	for _, s := range entryStyles {
+		if s.Style == style {
+			n := fmt.Sprintf(s.Format, pos)
+			if strings.Contains(s.Format, "%.0d") { // position-independent name (used for one entry of a store only)
+				n = strings.Replace(s.Format, "%.0d", "", 1)
+			}
+			return n
+		}
+	}
+	return "unknown-style-" + style
+}
 
 // placeEntry creates the entry of kind k at position pos in contentDir; things that must
 // live outside the store (symlink targets) go to <root>/elsewhere.
-func placeEntry(root, contentDir string, pos, k int) error {
+func placeEntry(root, contentDir string, pos, k int, names []string) error {
 	elsewhere := filepath.Join(root, "elsewhere")
 	m := mats[k][pos]
-	p := filepath.Join(contentDir, entryFileName(pos))
+	p := filepath.Join(contentDir, entryFileName(pos, names))
 	switch k {
 	case kSubdir:
 		if err := os.Mkdir(p, 0o755); err != nil {
@@ -512,7 +683,7 @@ func placeEntry(root, contentDir string, pos, k int) error {
 	return os.WriteFile(p, m.file, 0o644)
 }
 
-func populate(root, contentDir string, entries []int) error {
+func populate(root, contentDir string, entries []int, names []string) error {
 	if err := os.MkdirAll(contentDir, 0o755); err != nil {
 		return err
 	}
@@ -520,7 +691,7 @@ func populate(root, contentDir string, entries []int) error {
 		if k == hole {
 			continue
 		}
-		if err := placeEntry(root, contentDir, pos, k); err != nil {
+		if err := placeEntry(root, contentDir, pos, k, names); err != nil {
 			return err
 		}
 	}
@@ -532,15 +703,15 @@ func storePathOf(root string, c loadCase) string {
 }
 
 // placeStore creates the object of the given kind at the store path.
-func placeStore(root, storePath, pathKind string, entries []int) error {
+func placeStore(root, storePath, pathKind string, entries []int, names []string) error {
 	switch pathKind {
 	case "missing":
 		return nil
 	case "directory":
-		return populate(root, storePath, entries)
+		return populate(root, storePath, entries, names)
 	case "symlink-to-directory":
 		realDir := filepath.Join(root, "elsewhere", "real-store")
-		if err := populate(root, realDir, entries); err != nil {
+		if err := populate(root, realDir, entries, names); err != nil {
 			return err
 		}
 		return os.Symlink(realDir, storePath)
@@ -588,7 +759,7 @@ func build(root string, c loadCase, entries []int) (placed []bool, err error) {
 	if err := os.MkdirAll(filepath.Dir(storePath), 0o755); err != nil {
 		return nil, err
 	}
-	if err := placeStore(root, storePath, c.Path, entries); err != nil {
+	if err := placeStore(root, storePath, c.Path, entries, c.Names); err != nil {
 		return nil, err
 	}
 	parent := filepath.Dir(storePath)
@@ -639,7 +810,7 @@ func isRegularKind(k int) bool { return k >= 0 && mats[k][0].file != nil }
 // Directory -> directory is done IN PLACE: only the positions that differ are touched, a regular file
 // that becomes another regular file is overwritten (same inode), and the modification times of the
 // directory and of overwritten files are put back, so that nothing but the content differs.
-func applyStep(root, storePath, prevPath string, prev []int, nextPath string, next []int, moved bool) error {
+func applyStep(root, storePath, prevPath string, prev []int, nextPath string, next []int, moved bool, names []string) error {
 	if prevPath != "directory" || nextPath != "directory" {
 		if err := os.RemoveAll(storePath); err != nil { // a symlink is removed, not followed
 			return err
@@ -647,7 +818,7 @@ func applyStep(root, storePath, prevPath string, prev []int, nextPath string, ne
 		if err := os.RemoveAll(filepath.Join(root, "elsewhere", "real-store")); err != nil {
 			return err
 		}
-		return placeStore(root, storePath, nextPath, next)
+		return placeStore(root, storePath, nextPath, next, names)
 	}
 	di, err := os.Lstat(storePath)
 	if err != nil {
@@ -673,7 +844,7 @@ func applyStep(root, storePath, prevPath string, prev []int, nextPath string, ne
 		if pk == nk {
 			continue
 		}
-		p := filepath.Join(storePath, entryFileName(pos))
+		p := filepath.Join(storePath, entryFileName(pos, names))
 		if isRegularKind(pk) && isRegularKind(nk) {
 			fi, err := os.Lstat(p)
 			if err != nil {
@@ -694,7 +865,7 @@ func applyStep(root, storePath, prevPath string, prev []int, nextPath string, ne
 			}
 		}
 		if nk != hole {
-			if err := placeEntry(root, storePath, pos, nk); err != nil {
+			if err := placeEntry(root, storePath, pos, nk, names); err != nil {
 				return err
 			}
 		}
@@ -961,6 +1132,12 @@ func runCase(scratch string, idx int, c loadCase) (res result) {
 			res.infra = "too many entries"
 			return
 		}
+		for pos := range st.Entries {
+			if strings.HasPrefix(entryFileName(pos, c.Names), "unknown-style-") {
+				res.infra = "unknown entry name style in " + strings.Join(c.Names, ",")
+				return
+			}
+		}
 		ents[si] = make([]int, len(st.Entries))
 		for i, n := range st.Entries {
 			if n == "" {
@@ -1004,7 +1181,7 @@ func runCase(scratch string, idx int, c loadCase) (res result) {
 	var outcomes, details []string
 	for si, st := range steps {
 		if si > 0 {
-			if err := applyStep(root, storePath, steps[si-1].Path, ents[si-1], st.Path, ents[si], c.Mtimes == "moved"); err != nil {
+			if err := applyStep(root, storePath, steps[si-1].Path, ents[si-1], st.Path, ents[si], c.Mtimes == "moved", c.Names); err != nil {
 				res.infra = fmt.Sprintf("cannot change %s (step %d): %v", c, si, err)
 				return
 			}
@@ -1013,6 +1190,13 @@ func runCase(scratch string, idx int, c loadCase) (res result) {
 		add := func(key, format string, a ...any) {
 			if c.Prior == 1 {
 				key += ":after-other-loads-on-same-trust-store"
+			}
+			if c.Part == "names" {
+				for _, n := range c.Names {
+					if n != "" {
+						key += ":entry-named-" + n
+					}
+				}
 			}
 			if si > 0 && c.Part == "history" && c.Mtimes != "moved" {
 				key += ":reload-after-stat-invisible-change-on-same-trust-store"
@@ -1075,7 +1259,8 @@ func replay(r *hx.Run, scratch string) {
 
 func main() {
 	r := hx.New("C13")
-	r.Rule = "part entries: every ordered sequence (= multiset x file-name ordering) of <= N entry kinds x {ca, signingAuthority, tsa} in store \"s\"; " +
+	r.Rule = "part entries: every ordered sequence (= multiset x file-name ordering) of <= N core entry kinds and <= N-1 of all kinds x {ca, signingAuthority, tsa} in store \"s\"; " +
+		"part names: every entry-name style x every kind x {alone, before, after a good entry} x 3 types; " +
 		"part paths: every type x name x object-at-store-path x alias-store content with a fixed good content; both on a fresh trust-store object and on one that loaded other stores before; " +
 		"part history: every content of <= M entries x every single in-place edit (replace by every other kind / remove / add) x {modification times moved, put back} x 3 types, all loads on ONE object; " +
 		"part path-history: every ordered pair of objects at the store path. Each case has its own scratch root with four decoys and the alias stores. " +
@@ -1090,7 +1275,8 @@ func main() {
 		"store names with blank / backslash / newline / star are not classified by the statement: either outcome accepted, on success exactly the files of the directory of that very name",
 		"an error together with a NON-EMPTY certificate list is a partial set; nil versus empty list with an error is only recorded",
 		"a later load on the same trust-store object is judged like a first load against the files on disk at that moment (every in-place change once with modification times moved forward and once with them put back, as cp -p / rsync -t / tar or a change within the timestamp granularity do; distinct key suffixes)",
-		"entry alphabet = DESIGN's twelve kinds + two multi-certificate files whose second certificate is the bad one + four collision kinds (self-issued but foreign signature, own-key signature but foreign issuer name, corrupted signature)",
+		"entry alphabet = DESIGN's twelve kinds + two multi-certificate files whose second certificate is the bad one + four collision kinds (self-issued but foreign signature, own-key signature but foreign issuer name, corrupted signature) + three kinds of distinct roots colliding in name+serial / name+key + five bundles whose bad certificate is first or in the middle (PEM and concatenated DER)",
+		"no entry name is exempt from 'every entry' (hidden, backup, bookkeeping files included); certificates that differ in any byte are different certificates (the alphabet never stores the same certificate twice in one store, so de-duplication of identical certificates is not judged)",
 		"we run as root: permission faults (unreadable file/directory) are not produced",
 		"a panic of the loader is an infrastructure error",
 	}
@@ -1111,7 +1297,13 @@ func main() {
 		r.SetDeadline(9 * time.Minute)
 	}
 	var cases []loadCase
-	seqs := sequences(len(kinds), maxLen)
+	// all kinds up to maxLen-1 entries, the core kinds up to maxLen entries
+	seqs := sequences(len(kinds), maxLen-1)
+	for _, q := range sequences(coreKinds, maxLen) {
+		if len(q) == maxLen {
+			seqs = append(seqs, q)
+		}
+	}
 	for _, t := range storeTypes[:3] {
 		for _, s := range seqs {
 			cases = append(cases, loadCase{Part: "entries", Type: t.Value, Name: "s", Path: "directory", Entries: kindNames(s)})
@@ -1131,6 +1323,19 @@ func main() {
 		}
 	}
 	nPaths := len(cases) - nEntries
+	// entry names: every name style x every kind, alone and before / after an ordinary good entry
+	for _, t := range storeTypes[:3] {
+		for _, st := range entryStyles[1:] {
+			for k := range kinds {
+				kn := kinds[k].Name
+				cases = append(cases,
+					loadCase{Part: "names", Type: t.Value, Name: "s", Path: "directory", Entries: []string{kn}, Names: []string{st.Style}},
+					loadCase{Part: "names", Type: t.Value, Name: "s", Path: "directory", Entries: []string{kn, "pem-ca"}, Names: []string{st.Style, ""}},
+					loadCase{Part: "names", Type: t.Value, Name: "s", Path: "directory", Entries: []string{"pem-ca", kn}, Names: []string{"", st.Style}})
+			}
+		}
+	}
+	nStyled := len(cases) - nEntries - nPaths
 	// instance reuse: every case again on a trust-store instance that loaded other stores before
 	for _, c := range append([]loadCase(nil), cases...) {
 		c.Prior = 1
@@ -1155,7 +1360,7 @@ func main() {
 	nPathHist := len(cases) - nBase
 	nHistSkipped := 0
 	// content histories: one in-place edit between two loads on one object (thorough: and back again)
-	for _, a := range sequences(len(kinds), histLen) {
+	for _, a := range sequences(coreKinds, histLen) {
 		for _, b := range singleEdits(a) {
 			for _, t := range storeTypes[:3] {
 				c := loadCase{Part: "history", Type: t.Value, Name: "s", Path: "directory", Entries: kindNames(a), Then: []step{{"directory", kindNames(b)}}}
@@ -1201,6 +1406,9 @@ func main() {
 	r.Extra["entry_sequences"] = len(seqs)
 	r.Extra["cases_entries_part"] = nEntries
 	r.Extra["cases_paths_part"] = nPaths
+	r.Extra["cases_names_part"] = nStyled
+	r.Extra["entry_name_styles"] = len(entryStyles)
+	r.Extra["core_entry_kinds(longest_sequences,histories)"] = coreKinds
 	r.Extra["cases_fresh_and_reused_object"] = nBase
 	r.Extra["cases_path_history_part"] = nPathHist
 	r.Extra["cases_history_part"] = nHist
